@@ -74,10 +74,7 @@ def check(ctx):
                    node=m, message='the payload can arrive under files/ before its '
                                    '.trashinfo is completely written and closed')
             for x in [o] + ws + cs:
-                bad = reachable_only_exceptionally(b, x.id, m.id) and \
-                    not g.dominates(x.id, m.id)
-                bad = bad or m.id in g.reachable_from(exc_successors(b, x.id),
-                                                      blocked=[o.id])
+                bad = m.id in g.reachable_from(exc_successors(b, x.id), blocked=[o.id])
                 ctx.ob('R05.1', 'MOVE is not reachable from a failed %s' % x.data['kind'],
                        not bad, node=x,
                        message='after a failed %s of the .trashinfo the payload is still '
